@@ -3,6 +3,7 @@ From Coq Require Import Lia.
 Require Import Rapid.Model.Base Rapid.Model.Syntax Rapid.Model.Monad Rapid.Model.Engine Rapid.Model.Shrink.
 Require Import Rapid.Generated.Consts.
 Require Import Rapid.Proofs.EngineProofs.
+Require Import Rapid.Proofs.InvCount.
 Require Import Rapid.Proofs.Glue.
 Local Open Scope nat_scope.
 
@@ -39,3 +40,13 @@ Theorem C09_every_case_is_fresh :
     iv_out i = run_case geom LF lvl p (iv_src i).
 Proof. exact findBug_isolated. Qed.
 Print Assumptions C09_every_case_is_fresh.
+
+(* ... "and invokes the property no further": the invocations of the random phase are exactly the counted test cases
+   (valid and skipped) plus the falsifying one, if any.  Fuel exhaustion, a model artefact, is excluded. *)
+Theorem C09_no_further_invocations :
+  forall geom LF lvl p checks early seed,
+    let r := findBug0 geom LF lvl p checks early seed in
+    fb_err r <> Some XFuel ->
+    length (fb_log r) = fb_valid r + fb_invalid r + match fb_err r with None => 0 | Some _ => 1 end.
+Proof. exact findBug0_count. Qed.
+Print Assumptions C09_no_further_invocations.
